@@ -10,13 +10,20 @@ Sentence ↔ theorem
   (all ten bodies incl. Announce and Management, any header, any valid TLV set incl. empty-valued TLVs,
    any trailing bytes; `WF` = the value ranges of the Rust field types + enum payloads in the range their
    variant parses from — outside it the library does NOT round-trip: known finding F-C41c)
-* "every message it parses re-serialises to the parsed prefix of the input"            → `parse_then_ser_partial`
-  PARTIAL.  The strict reading `ParseThenSerStrict` is FALSE for the code (`counterexample`: reserved header
-  bits are dropped — known finding F-C41b).  Proved: re-serialisation of a parsed message succeeds into any
-  buffer of `messageLength` bytes, yields exactly `messageLength` bytes whose TLV part is the input's TLV bytes
-  verbatim, and is canonical (parses back — with any trailing bytes — to the very same message).  NOT proved
-  (`ParseThenSerCanonFull`, kept as a `def`): byte equality of header + body with the input prefix when the
-  reserved fields are zero; this is checked per case by the streams (oracle + model-vs-implementation bytes).
+* "every message it parses re-serialises to the parsed prefix of the input"            → `parse_then_ser`
+  Proved up to the registered known finding F-C41b: re-serialising a parsed message into a zeroed buffer of at
+  least `messageLength` octets yields EXACTLY `canon (b.take messageLength)`, where `canon` (see `canonHeader`,
+  `canonBody` in `Proofs/PtpWire`) zeroes precisely the reserved fields (flag bits 3,4,7 of octet 6, bit 7 of
+  octet 7, octets 16..19, octet 32, the 10 reserved octets of Pdelay_Req, Announce octet 34+12, Management octet
+  34+10) and canonicalises the two lossy enum octets (reserved clockAccuracy codes → 0, actionField > 5 → 5);
+  `parse_then_ser_reserved_zero` (= the former `ParseThenSerCanonFull`, now a theorem): when those fields are
+  already zero the result IS the parsed prefix, for all ten bodies and any TLV suffix.  The strict reading
+  `ParseThenSerStrict` is false for the code (`counterexample`).  `parse_then_ser_partial` (canonical
+  representative, parses back to the same message) is kept.
+  Buffer hygiene: `serialize_reads_only_unwritten_octet` — the output depends on the caller's buffer only through
+  its length and the ONE octet the encoder never writes (Announce 34+12, Management 34+10);
+  `unwritten_octet_is_stale` — that octet goes out as found in the buffer; with a zeroed buffer it is 0
+  (`parse_then_ser`), so no stale octet reaches the wire.
 * "parsing any byte string terminates without panicking"                               → `parse_total`
   (the model is a total function; its fuelled TLV loop never runs out of fuel; every explicit panic branch —
    slice indices after length tests, `unwrap`s, the iterator's `debug_assert` — is unreachable), and
@@ -67,20 +74,49 @@ def ParseThenSerStrict : Prop :=
     Message.deserialize b = .ok m → ∀ cap, dh.messageLength ≤ cap →
       m.serialize (List.replicate cap 0) = .ok (b.take dh.messageLength)
 
-/-- reserved fields of the wire format that the parser ignores and the encoder writes as zero / leaves alone -/
-def ReservedZero (b : Bytes) : Prop :=
-  (b.getD 6 0).toNat / 8 % 4 = 0 ∧ (b.getD 6 0).toNat / 128 = 0 ∧ (b.getD 7 0).toNat / 128 = 0 ∧
-  b.getD 16 0 = 0 ∧ b.getD 17 0 = 0 ∧ b.getD 18 0 = 0 ∧ b.getD 19 0 = 0 ∧ b.getD 32 0 = 0 ∧
-  ((b.getD 0 0).toNat % 16 = 2 → ∀ i, 44 ≤ i → i < 54 → b.getD i 0 = 0) ∧
-  ((b.getD 0 0).toNat % 16 = 11 → b.getD 46 0 = 0 ∧
-     ClockAccuracy.fromPrimitive (b.getD 49 0).toNat ≠ .reserved ∨ b.getD 49 0 = 0) ∧
-  ((b.getD 0 0).toNat % 16 = 13 → b.getD 44 0 = 0 ∧ (b.getD 47 0).toNat ≤ 5)
+/-- the reserved fields of the parsed prefix `p` are zero and its two lossy enum octets are canonical:
+    header flag bits 3,4,7 of octet 6, bit 7 of octet 7, octets 16..19 and 32; for Pdelay_Req the 10 reserved body
+    octets; for Announce body octet 12 and a non-reserved (or zero) clockAccuracy octet; for Management body
+    octet 10 and an actionField ≤ 5 -/
+def ReservedZero (p : Bytes) : Prop :=
+  ReservedZeroHeader p ∧ ReservedZeroBody ((p.getD 0 0).toNat % 16) (p.drop 34)
 
-/-- the intended full statement (NOT proved; see header): byte equality whenever the reserved fields are zero -/
-def ParseThenSerCanonFull : Prop :=
-  ∀ (b : Bytes) (m : Message) (dh : DeserializedHeader), Header.deserialize b = .ok dh →
-    Message.deserialize b = .ok m → ReservedZero b → ∀ cap, dh.messageLength ≤ cap →
-      m.serialize (List.replicate cap 0) = .ok (b.take dh.messageLength)
+/-- **Parse, then re-serialise.**  For every byte string that parses, re-serialising the parsed message into a
+    zeroed buffer that can hold `messageLength` octets gives exactly the canonical form of the parsed prefix. -/
+theorem parse_then_ser (b : Bytes) (m : Message) (dh : DeserializedHeader) (hh : Header.deserialize b = .ok dh)
+    (h : Message.deserialize b = .ok m) (cap : Nat) (hc : dh.messageLength ≤ cap) :
+    m.serialize (List.replicate cap 0) = .ok (canon (b.take dh.messageLength)) :=
+  Message.parse_then_ser_bytes b m dh hh h cap hc
+
+/-- … and that is the parsed prefix itself whenever its reserved fields are zero (the full statement of
+    sentence 2 up to known finding F-C41b; formerly the unproved `ParseThenSerCanonFull`). -/
+theorem parse_then_ser_reserved_zero (b : Bytes) (m : Message) (dh : DeserializedHeader)
+    (hh : Header.deserialize b = .ok dh) (h : Message.deserialize b = .ok m)
+    (hr : ReservedZero (b.take dh.messageLength)) (cap : Nat) (hc : dh.messageLength ≤ cap) :
+    m.serialize (List.replicate cap 0) = .ok (b.take dh.messageLength) := by
+  rw [parse_then_ser b m dh hh h cap hc]
+  obtain ⟨dh', hh', h34, hlen, _, hbody, hws, _⟩ := Message.deserialize_inv b m h
+  rw [hh] at hh'; cases hh'
+  obtain ⟨_, hty⟩ := Body.deserialize_WF _ _ _ hbody
+  obtain ⟨htyb, _, hb34⟩ := Header.deserialize_type b dh hh
+  obtain ⟨_, hg0, _, _⟩ := canonHeader_take b dh.messageLength h34 hb34
+  have hclen : ((b.take dh.messageLength).drop 34).length = dh.messageLength - 34 := by
+    simp [List.length_take]; omega
+  rw [hclen, Body.wireSize_eq, hty, htyb] at hws
+  congr 1
+  apply canon_eq_self _ _ hr.1 hr.2
+  rw [hg0, List.length_take]
+  omega
+
+/-- `Message::serialize` reads the caller's buffer only for its length and the one octet it never writes -/
+theorem serialize_reads_only_unwritten_octet (m : Message) (buf buf' : Bytes) (hl : buf.length = buf'.length)
+    (h : ∀ i, m.body.unwritten = some i → buf[34 + i]? = buf'[34 + i]?) : m.serialize buf = m.serialize buf' :=
+  Message.serialize_congr m buf buf' hl h
+
+/-- that octet (Announce: 34+12, Management: 34+10) goes out on the wire as found in the caller's buffer -/
+theorem unwritten_octet_is_stale (m : Message) (buf out : Bytes) (i : Nat) (hi : m.body.unwritten = some i)
+    (h : m.serialize buf = .ok out) : out[34 + i]? = buf[34 + i]? :=
+  Message.serialize_unwritten m buf out i hi h
 
 /-- **Parse, then re-serialise (proved part).** -/
 theorem parse_then_ser_partial (b buf : Bytes) (m : Message) (h : Message.deserialize b = .ok m) :
@@ -144,6 +180,14 @@ example : TlvSet.deserialize exAnnounce.suffix = .ok exAnnounce.suffix :=
 example : ((exAnnounce.serialize (List.replicate 100 0xaa)).toOption.map List.length) = some 74 := by decide +kernel
 example : (Message.deserialize wReserved).toOption.isSome = true := by decide +kernel
 
+/-- `wCanon` (a 44-byte Sync with all reserved fields zero) meets the hypotheses of `parse_then_ser_reserved_zero` -/
+example : ReservedZero wCanon := by
+  unfold ReservedZero ReservedZeroHeader ReservedZeroBody
+  decide
+example : (Message.deserialize wCanon).toOption.isSome = true := by decide +kernel
+/-- and `canon` really changes `wReserved` (reserved flag bit 3 set) into `wCanon` -/
+example : canon wReserved = wCanon := by decide +kernel
+
 end NtpVerif.C41
 
 #print axioms NtpVerif.C41.ser_then_parse
@@ -151,4 +195,8 @@ end NtpVerif.C41
 #print axioms NtpVerif.C41.parse_total
 #print axioms NtpVerif.C41.iterate_total
 #print axioms NtpVerif.C41.parse_then_ser_partial
+#print axioms NtpVerif.C41.parse_then_ser
+#print axioms NtpVerif.C41.parse_then_ser_reserved_zero
+#print axioms NtpVerif.C41.serialize_reads_only_unwritten_octet
+#print axioms NtpVerif.C41.unwritten_octet_is_stale
 #print axioms NtpVerif.C41.counterexample
